@@ -13,6 +13,7 @@
 // indexed features are returned whole.  Units are not used (C18).
 #include "dagrid.hpp"
 
+#pragma GCC diagnostic ignored "-Wdeprecated-declarations"
 using namespace nix;
 using namespace dag;
 
@@ -95,6 +96,25 @@ static void check_tag(Setup &S, const std::vector<double> &pos, const std::vecto
         vf::count("retrievals");
         in.match = MODES[mi];
         check_retrieval(P, site, in, x[mi], g, [&] { return goc[mi]; });
+    }
+    // the deprecated spellings (forwarders; util::retrieveData / retrieveFeatureData default to Inclusive, the members to the
+    // default of their replacement): one per tag in rotation, all of them when `rich`
+    for (int e = 0; e < 8; e++) {
+        if (!rich && (k + 5) % 8 != e) continue;
+        Got g; int mi = EXC; std::string site; bool feature = false;
+        switch (e) {
+        case 0: site = "Tag::retrieveData(index) [deprecated]"; in.mode = "default(Exclusive)"; g = observe([&] { return S.tag.retrieveData(0); }); break;
+        case 1: site = "Tag::retrieveData(name) [deprecated]"; in.mode = "default(Exclusive)"; g = observe([&] { return S.tag.retrieveData("ref"); }); break;
+        case 2: site = "util::retrieveData(Tag,index) [deprecated]"; in.mode = "default(Inclusive)"; mi = INC; g = observe([&] { return util::retrieveData(S.tag, 0); }); break;
+        case 3: site = "util::retrieveData(Tag,array,match) [deprecated]"; in.mode = "Exclusive"; g = observe([&] { return util::retrieveData(S.tag, da, RangeMatch::Exclusive); }); break;
+        case 4: site = "util::retrieveData(Tag,array) [deprecated]"; in.mode = "default(Inclusive)"; mi = INC; g = observe([&] { return util::retrieveData(S.tag, da); }); break;
+        case 5: feature = true; site = "Tag::retrieveFeatureData(index) tagged [deprecated]"; inf.mode = "default(Exclusive)"; g = observe([&] { return S.tag.retrieveFeatureData(S.idx_t); }); break;
+        case 6: feature = true; site = "util::retrieveFeatureData(Tag,index) tagged [deprecated]"; inf.mode = "default(Inclusive)"; mi = INC; g = observe([&] { return util::retrieveFeatureData(S.tag, S.idx_t); }); break;
+        default: feature = true; site = "util::retrieveFeatureData(Tag,feature,match) tagged [deprecated]"; inf.mode = "Exclusive"; g = observe([&] { return util::retrieveFeatureData(S.tag, S.feat_t, RangeMatch::Exclusive); }); break;
+        }
+        vf::count("retrievals");
+        if (!feature) { in.match = MODES[mi]; check_retrieval(P, site, in, x[mi], g, [&] { return goc[mi]; }); }
+        else { inf.match = MODES[mi]; RangeMatch m = MODES[mi]; check_retrieval(P, site, inf, xf[mi], g, [&] { return call_goc(S.tag, S.ft.array, &m); }); }
     }
     for (int e = 0; e < 7; e++) {
         if (!rich && (k + 3) % 7 != e) continue;
